@@ -196,11 +196,17 @@ def one_case(arg):
         if gsyms:
             s1 = rng.choice(gsyms)
             sels.append([rng.choice(["--include", "--exclude"]), "@" + s1])
-        for sel in sels:
-            base = ["--no-progress", "--show-refs"] + sel
+        # explicit ROOT arguments naming objects that references name too: ROOTs are not references, so the count and the
+        # tallies are what they are without them
+        rootsets = [[]] * len(sels)
+        for sel in list(sels):
+            sels.append(sel)
+            rootsets.append(rng.sample([refs[0], c.oid, refs[-1] + "~0", c.oid[:12], refs[len(refs) // 2] + "^{commit}"], rng.randint(1, 3)))
+        for sel, xroots in zip(sels, rootsets):
+            base = ["--no-progress", "--show-refs"] + sel + xroots
             r1 = R.sizer(binary, gitdir, ["--json"] + base, tmpdir=d)
             out["runs"] += 1
-            ctx = {"sel": sel, "entries": entries[:40], "nrefs": len(refs), "repo": [seed, idx]}
+            ctx = {"sel": sel, "roots": xroots, "entries": entries[:40], "nrefs": len(refs), "repo": [seed, idx]}
             if r1.rc != 0 or r1.timed_out:
                 kind = "panic" if b"panic" in r1.err else "error"
                 out["viol"].append(("C07/report-failed/json-v1/%s/depth%s" % (kind, "<=13" if out["maxdepth"] <= 13 else ">13"),
